@@ -1,4 +1,5 @@
 """C18 - the spec matcher implements its documented operator table."""
+import multiprocessing
 import operator
 import os
 from decimal import Decimal
@@ -117,23 +118,35 @@ def observe(match, value, spec):
     return 'non-bool:' + repr(r)[:40]
 
 
-def compare(ctx, match, c, want, layouts, thorough, stats=None):
+def renderings(c, layouts, thorough):
     toks, ops_at = tokens(c)
+    return [(value, name, layout(name, toks, ops_at)) for value in values(c, thorough) for name in layouts]
+
+
+def judge(ctx, c, want, value, name, spec, got, stats=None):
+    if stats is not None:
+        stats[(c['op'], got)] = stats.get((c['op'], got), 0) + 1
+    if got != want:
+        kind = 'verdict' if got in ('true', 'false') and want in ('true', 'false') else 'outcome-class'
+        ctx.violation({'kind': kind, 'family': c['k'], 'op': c['op'], 'want': want, 'got': got,
+                       'layout': name if name != 'single' else 'any'},
+                      {'value': value, 'spec': spec, 'layout': name, 'case': c, 'expected': want, 'observed': got},
+                      'match(%r, %r): specification %s, code %s' % (value, spec, want, got))
+
+
+def compare(ctx, match, c, want, layouts, thorough, stats=None):
+    """in-process replay of one case (used by the binding self-test)"""
     n = 0
-    for value in values(c, thorough):
-        for name in layouts:
-            spec = layout(name, toks, ops_at)
-            got = observe(match, value, spec)
-            n += 1
-            if stats is not None:
-                stats[(c['op'], got)] = stats.get((c['op'], got), 0) + 1
-            if got != want:
-                kind = 'verdict' if got in ('true', 'false') and want in ('true', 'false') else 'outcome-class'
-                ctx.violation({'kind': kind, 'family': c['k'], 'op': c['op'], 'want': want, 'got': got,
-                               'layout': name if name != 'single' else 'any'},
-                              {'value': value, 'spec': spec, 'layout': name, 'case': c, 'expected': want, 'observed': got},
-                              'match(%r, %r): specification %s, code %s' % (value, spec, want, got))
+    for value, name, spec in renderings(c, layouts, thorough):
+        judge(ctx, c, want, value, name, spec, observe(match, value, spec), stats)
+        n += 1
     return n
+
+
+def _job(batch):
+    """worker: the real match() on a batch of (value, spec) pairs (make_grammar() is rebuilt on every call, ~1 ms)"""
+    from oslo_utils import specs_matcher
+    return [observe(specs_matcher.match, value, spec) for value, spec in batch]
 
 
 def run(ctx):
@@ -166,6 +179,7 @@ def run(ctx):
     n = 0
     nontrivial = 0
     layouts_seen = set()
+    work = []
     for rec in res.records:
         c = rec['c']
         want = rec['ref']
@@ -177,7 +191,8 @@ def run(ctx):
             raise MachineryError('the TLA+ reference and the Python rendering of the table disagree on %r: %s vs %s' % (c, want, o))
         layouts = rec['layouts']
         layouts_seen.update(layouts)
-        n += compare(ctx, specs_matcher.match, c, want, layouts, not quick, stats)
+        for value, name, spec in renderings(c, layouts, not quick):
+            work.append((c, want, value, name, spec))
         fam[c['k']] = fam.get(c['k'], 0) + 1
         if c['op'] in ('<or>', '<all-in>'):
             arity[(c['op'], len(c['a']))] = arity.get((c['op'], len(c['a'])), 0) + 1
@@ -185,6 +200,18 @@ def run(ctx):
             brackets.add((c['lb'], c['rb'], want))
         if want == 'true':
             nontrivial += 1
+    step = 400
+    batches = [[(w[2], w[4]) for w in work[i:i + step]] for i in range(0, len(work), step)]
+    with multiprocessing.Pool(16) as pool:
+        for bi, out in enumerate(pool.imap(_job, batches, chunksize=1)):
+            if len(out) != len(batches[bi]):
+                raise MachineryError('worker returned %d answers for %d calls' % (len(out), len(batches[bi])))
+            for (c, want, value, name, spec), got in zip(work[bi * step:(bi + 1) * step], out):
+                judge(ctx, c, want, value, name, spec, got, stats)
+                n += 1
+    if n != len(work):
+        raise MachineryError('replayed %d of %d calls' % (n, len(work)))
+    work = None
     ncases = len(res.records)
     first = res.records[ncases // 2]
     ctx.sample({'case': first})
